@@ -175,7 +175,7 @@ pub fn run(tier: Tier) -> i32 {
                     continue;
                 }
                 cases += total as u64;
-                par_for(total, 256, |code| {
+                rep.par_for(total, 256, "C05 part 1", |code| {
                     let mut c = code;
                     let syms: Vec<Sym> = (0..n)
                         .map(|_| {
@@ -187,6 +187,35 @@ pub fn run(tier: Tier) -> i32 {
                     run_case(&syms, wset, vlen, &rep, &st);
                 });
             }
+        }
+    }
+    {
+        // one state more than the full product, on a 16-symbol alphabet (2 means x 2 variances x 2 durations x voicing)
+        let mut red16 = Vec::new();
+        for voiced in [true, false] {
+            for dur in [1usize, 2] {
+                for var in [0usize, 2] {
+                    for mean in [0usize, 2] {
+                        red16.push(Sym { mean, var, dur, voiced });
+                    }
+                }
+            }
+        }
+        let n = max_states + 1;
+        let total = red16.len().pow(n as u32);
+        for wset in 0..6 {
+            cases += total as u64;
+            rep.par_for(total, 256, "C05 part 2", |code| {
+                let mut c = code;
+                let syms: Vec<Sym> = (0..n)
+                    .map(|_| {
+                        let s = red16[c % red16.len()];
+                        c /= red16.len();
+                        s
+                    })
+                    .collect();
+                run_case(&syms, wset, 1, &rep, &st);
+            });
         }
     }
     if tier == Tier::Thorough {
@@ -203,7 +232,7 @@ pub fn run(tier: Tier) -> i32 {
             for wset in 0..6 {
                 for vlen in [1usize, 3, 4] {
                     cases += total as u64;
-                    par_for(total, 64, |code| {
+                    rep.par_for(total, 64, "C05 part 3", |code| {
                         let mut c = code;
                         let syms: Vec<Sym> = (0..n)
                             .map(|_| {
@@ -230,7 +259,7 @@ pub fn run(tier: Tier) -> i32 {
             let total = long.len().pow(n as u32);
             for wset in 0..6 {
                 cases += total as u64;
-                par_for(total, 64, |code| {
+                rep.par_for(total, 64, "C05 part 4", |code| {
                     let mut c = code;
                     let syms: Vec<Sym> = (0..n)
                         .map(|_| {
@@ -260,7 +289,7 @@ pub fn run(tier: Tier) -> i32 {
         }
         for wset in 0..6 {
             cases += pats.len() as u64;
-            par_for(pats.len(), 8, |i| {
+            rep.par_for(pats.len(), 8, "C05 part 5", |i| {
                 let syms: Vec<Sym> = (0..60).map(|k| pats[i][k % pats[i].len()]).collect();
                 run_case(&syms, wset, 1, &rep, &st);
             });
